@@ -187,6 +187,10 @@ DEP_ABORT_TRIAGED = {
     "subtle::Choice as std::convert::From<u8>>::from": "argument domain checked by E8.choice",
     "From<subtle::Choice> for bool>::from": "debug-asserts that the Choice byte is 0 or 1: holds for every Choice (built by subtle's own operators or through the conversions checked by E8.choice)",
     "subtle::Choice::unwrap_u8": "returns the byte",
+    "as subtle::ConstantTimeEq>::ct_eq": "subtle 2.x: xor, wrapping_neg and a right shift by the constant bit-width - 1, then Choice::from of a value that is 0 or 1 by construction; slices compare lengths first",
+    "as subtle::ConstantTimeEq>::ct_ne": "negation of ct_eq",
+    "as subtle::ConstantTimeGreater>::ct_gt": "subtle 2.x: shifts by constants below the bit width",
+    "as subtle::ConstantTimeLess>::ct_lt": "defined through ct_gt / ct_eq",
     "as subtle::ConditionallySelectable>::conditional_select": "negates a Choice byte (0 or 1) as i8: cannot overflow",
     "uint_zigzag::Uint as std::convert::TryFrom<&[u8]>>::try_from": "returns Err on malformed input; internal indexing is bounded by its own length checks (contract in dep_contracts.json)",
     "uint_zigzag::Uint::peek": "returns None on malformed input (contract in dep_contracts.json)",
